@@ -2,7 +2,8 @@
 """validation of unit csvcols (UNITS.md "Validation"): apply one edit at a time to the scratch worktree /tmp/cc1 of
 /repo and run the unit against it (what `VERIF_REPO=/tmp/cc1 ./vxrun csvcols I` does, with the PRIVATE extractor build
 that carries R16.refpat: see extractor_refpat.patch / run.py).  usage: units/csvcols/validate.py [edit names..]
-Expected: B* -> FAIL in the named function; H* -> GREEN; V:* (ensures false) -> REJECTED."""
+Expected: B* -> FAIL in the named function; H* -> GREEN; V:* (ensures false) -> REJECTED.  B5b edits
+generate_column_names_and_indices_for_variable, which is NOT extracted (facade A-colnames): GREEN = known blind spot."""
 import os, sys, subprocess
 sys.path.insert(0, os.path.dirname(os.path.dirname(os.path.dirname(os.path.abspath(__file__)))))
 WT = "/tmp/cc1"
